@@ -15,10 +15,10 @@ from lib.ctx import MachineryError
 from harness.mt import mtlib
 
 QUICK_MC = ["err1", "badhdr2", "direct", "direrr", "trunc2", "memtight", "live", "live_trunc", "cat2_badpad", "cat1_trailpad",
-            "memstop", "memstop_noraise", "memstop_err", "live_memstop"]
+            "memstop", "memstop_noraise", "memstop_err", "live_memstop", "tell_cat2", "tell_err1"]
 ALL_MC = ["ok", "err2", "err1", "badhdr", "badhdr2", "direct", "direrr", "empty", "trunc", "trunc2", "badtail",
           "spur", "timeout", "ff_err", "ff_trunc", "memtight", "live", "live_trunc", "cat2", "cat2_pad0", "cat2_badpad", "cat1_trailpad", "reinit", "reinit_err",
-          "memstop", "memstop_noraise", "memstop_err", "live_memstop"]
+          "memstop", "memstop_noraise", "memstop_err", "live_memstop", "tell_cat2", "tell_err1"]
 
 def model_check(ctx):
     names = QUICK_MC if ctx.quick else ALL_MC
@@ -134,6 +134,9 @@ def make_files(ctx):
     for b, f in zip(lm["blocks"], fl):
         b["fmem"] = int(lz.L().lzma_raw_decoder_memusage(f))
     files.append(("memmix3", mix, lm))
+    # no integrity check at all (LZMA_TELL_NO_CHECK must say so, once, after the Stream Header)
+    nc = coders.encode_xz(text[:50000], preset=0, check=lz.CHECK_NONE, block_size=20000)
+    files.append(("nocheck3", nc, mtlib.layout(nc)))
     return files
 
 def st_decode(data, flags=0, memlimit=None):
@@ -177,6 +180,13 @@ def run(ctx):
             need = max(b["mem"] + b["outsz"] + outovh for b in sized)
             memsets.append((3, 0, 0, need + 1000, None))
             memsets.append((2, 0, 0, need - 1, None))
+        # LZMA_TELL_* flags: a notification after each Stream Header, then decoding goes on
+        if name in ("valid4", "cat2_pad4", "corrupt_b1"):
+            memsets.append((2, 0, lz.TELL_ANY_CHECK, None, None))
+        if name == "nocheck3":
+            memsets += [(2, 0, lz.TELL_NO_CHECK, None, None), (3, 0, lz.TELL_ANY_CHECK | lz.TELL_NO_CHECK, None, None)]
+        if name == "valid_rand2":
+            memsets.append((2, 1, lz.TELL_NO_CHECK | lz.TELL_UNSUPPORTED_CHECK, None, None))     # neither applies
         if name == "memmix3":
             # memlimit_stop: between the needs of the small and the big chain (Block 1 threaded, Block 2 refused, then
             # decoded in direct mode because memlimit_threading stays at the old limit) / below every need (every
@@ -190,6 +200,10 @@ def run(ctx):
                      memstop=memstop)
             if memstop:
                 g["st_limited"] = st_decode(data, cflag, memstop)
+            chk = lay.get("check", 1)
+            g["tell"] = ("NO_CHECK" if (fl & lz.TELL_NO_CHECK) and chk == 0 else
+                         "UNSUPPORTED_CHECK" if (fl & lz.TELL_UNSUPPORTED_CHECK) and chk not in (0, 1, 4, 10) else
+                         "GET_CHECK" if fl & lz.TELL_ANY_CHECK else "none")
             groups.append(g)
             for k in range(nseeds):
                 seed = ctx.seed * 1000 + k + 17 * len(jobs)
@@ -218,7 +232,7 @@ def run(ctx):
         return j, res, out
     with cf.ThreadPoolExecutor(8) as ex:
         results = list(ex.map(exec_job, jobs))
-    refused = [0, 0]
+    refused = [0, 0, 0]
     for (g, params), res, out in results:
         label = "%s:T%d:to%d:fl%d:m%s:s%s:seed%d" % (g["file"], g["nw"], g["timeout"], g["flags"], g["memt"], g["memstop"], params["seed"])
         ctx.case(key=label)
@@ -236,6 +250,7 @@ def run(ctx):
         init_ev, evs = mtlib.fold(res["events"])
         if any(e["e"] in ("OVERFLOW", "TOOMANYCALLS") for e in evs):
             raise MachineryError("driver event buffer overflow / too many calls: " + label)
+        refused[2] += sum(1 for e in evs if e["e"] == "GetCheck")
         if g["memstop"]:
             refused[0] += sum(1 for e in evs if e["e"] == "Ret" and e["a"] == lz.MEMLIMIT_ERROR)
             refused[1] += sum(1 for e in evs if e["e"] == "MemlimitSet")
@@ -261,7 +276,9 @@ def run(ctx):
                           dict(kind="run", params=params, file=g["file"]))
     if not refused[0] or not refused[1]:
         raise MachineryError("no run was refused with LZMA_MEMLIMIT_ERROR / none raised the limit (vacuous memlimit_stop groups)")
-    ctx.log("memlimit_stop: %d LZMA_MEMLIMIT_ERROR returns, %d lzma_memlimit_set calls" % tuple(refused))
+    if not refused[2]:
+        raise MachineryError("no LZMA_*_CHECK notification was seen (vacuous LZMA_TELL_* groups)")
+    ctx.log("memlimit_stop: %d LZMA_MEMLIMIT_ERROR returns, %d lzma_memlimit_set calls; %d LZMA_*_CHECK notifications" % tuple(refused))
     # trace validation: one TLC run per (file, threads, timeout, failfast)
     def validate_group(g):
         if not g["runs"]:
@@ -272,6 +289,7 @@ def run(ctx):
                        copies=lay.get("copies", 1), pad=lay.get("pad", 0), concat=bool(lay.get("concat")),
                        memt=int(g["memt"]) if g["memt"] else 2000000000, outovh=outovh,
                        memstop=int(g["memstop"]) if g["memstop"] else 2000000000,
+                       tell=g["tell"], check=lay.get("check", 1),
                        blocks=[{k: b[k] for k in ("hdr", "bh", "insz", "outsz", "errAt", "mem", "fmem", "corrupt")} for b in lay["blocks"]])
         sub = type(ctx)(ctx.pid, ctx.tier, ctx.seed)      # private accounting, merged below
         sub.workdir = os.path.join(ctx.workdir, "g%d" % id(g)); os.makedirs(sub.workdir, exist_ok=True)
